@@ -327,6 +327,21 @@ for seq, _ in pairs:
     want = ["ok", "".join("%%02x" %% E[c] for c in seq)] if all(c in E for c in seq) else None
     if (want is not None and got != want) or (want is None and got[0] != "fail"):
         bad.append([".ascii", "+".join("U+%%04X" %% ord(c) for c in seq), got, want or "an error"])
+# the same refusal every time: a character constant rejected by one assembly is rejected by the next one in the same process too
+for ch in ("\u03bb", "\u263a", "\u5b57", "\u20ac"):
+    for tmpl in (".word '%%s\n", "mov #'%%s, r0\n", ".ascii \"%%s\"\n", ".word \"a%%s\n"):
+        outs = []
+        for rnd_ in range(3):
+            errs = []
+            try:
+                with reports.handle_reports(lambda p, i, *l: errs.append(i) if p is not reports.warning else None):
+                    base, code = Compiler().compile_and_link_files([parse("t%%d.mac" %% rnd_, tmpl %% ch)])
+                outs.append(["ok", code.hex()])
+            except reports.UnrecoverableError:
+                outs.append(["fail", errs[:1]])
+        n += 1
+        if any(o_[0] != "fail" for o_ in outs):
+            bad.append([tmpl.strip(), "U+%%04X three assemblies in one process" %% ord(ch), outs, "an error every time"])
 result = [n, len(cps), bad]
 ''' % tier
     r = driver.native([{"kind": "py", "code": code}], driver.tree_root(), timeout=3000)[0]
